@@ -400,3 +400,122 @@ Example C19_example_yield :
   let g' := yield_iters 3 3 yex 1 in
   yq g' 0 = [5; 7; 8; 9] /\ yq g' 1 = [] /\ yq g' 2 = [] /\ y_can_sleep g' 1 = true /\ y_can_sleep yex 1 = false.
 Proof. vm_compute. repeat split; auto. Qed.
+(* ======== round p12a: the stuck-state theorems for the high-priority-queue layer ========
+   Model/SuspendResumeHPStuck.v defines enabledness of a layer thread ([hp_enabled]: the base model's [enabled] at the corresponding
+   program point, plus — for a polling worker — [own_hp]: its own high-priority queue is not empty, and [steal_h]: it is running
+   (or believes so and has not passed HStealH) with stealing on, has a high-priority queue itself and a victim's is not empty).
+   [hp_stuck]: no thread is enabled.  Proofs/SuspendResumeHPStuckProofs.v: by PROJECTION onto the base model — INV4 holds of the
+   projected state along every layer run, a stuck layer state projects to a stuck base state, so the base analysis is reused. *)
+From Pika Require Import Model.SuspendResumeHPStuck Proofs.SuspendResumeHPStuckProofs.
+
+(* what [hp_stuck] means: a thread that is not enabled only stutters (step without spurious wake-up / contention) *)
+Theorem C19_hp_disabled_only_stutters : forall c nhp o t g l, fst o = false -> hp_enabled c nhp t g l = false ->
+  geq g (fst (hp_tstep c nhp o t g l)) /\
+  hp_enabled c nhp t (fst (hp_tstep c nhp o t g l)) (snd (hp_tstep c nhp o t g l)) = false.
+Proof. exact hp_disabled_stutter. Qed.
+Print Assumptions C19_hp_disabled_only_stutters.
+
+(* the hand-shake / lock invariant of the base model holds of every reachable layer state (projected) *)
+Theorem C19_hp_handshake_invariant : forall c nhp progs high sched, (forall t, Forall (api_ok c) (progs t)) ->
+  INV4 c (fst (hp_run c nhp progs high sched)) (pls (snd (hp_run c nhp progs high sched))).
+Proof. exact hp_inv4. Qed.
+Print Assumptions C19_hp_handshake_invariant.
+
+(* simulation: a run of the layer in which no client submits with high priority is, step for step (HPopH / HStealH find their
+   queues empty and are skipped: [base_sched]), a run of the base model — every theorem above about sr_run holds of it *)
+Theorem C19_hp_simulates_base_when_no_hp_tasks : forall c nhp progs high sched, nw c > 0 -> (forall t, high t = false) ->
+  let cf := hp_run c nhp progs high sched in
+  let cfb := sr_run c progs (base_sched c nhp sched (sr_g0, hp_locals c progs high)) in
+  fst cf = fst cfb /\ forall t, hproj (snd cf t) = snd cfb t.
+Proof. exact hp_simulates_base_when_no_hp_tasks. Qed.
+Print Assumptions C19_hp_simulates_base_when_no_hp_tasks.
+
+(* ... and one step: with every high-priority queue empty a layer step of a worker or of a normal-priority client is the base
+   step of the projected thread, or (HPopH / HStealH) a stutter *)
+Theorem C19_hp_step_simulates_base : forall c nhp o t g l,
+  (forall i tk, In (i, tk) (qs g) -> i <= nw c) -> (forall cl h, l = HClient cl h -> h = false) ->
+  let r := hp_tstep c nhp o t g l in
+  if hp_skips l then fst r = g /\ hproj (snd r) = hproj l
+  else (fst r, hproj (snd r)) = sr_tstep c o t g (hproj l).
+Proof. exact hp_step_simulates. Qed.
+Print Assumptions C19_hp_step_simulates_base.
+
+(* (2) the calls return, WITH high-priority tasks, for every nhp: the same statement and the same exception (the low-priority
+   finding) as C19_suspend_resume_return — no new hypothesis: the owner pops its own high-priority queue even in pre_sleep, and
+   a non-empty own high-priority queue keeps the worker enabled *)
+Theorem C19_hp_suspend_resume_return : forall c nhp progs high sched, (forall t, Forall (api_ok c) (progs t)) ->
+  let cf := hp_run c nhp progs high sched in
+  hp_stuck c nhp cf ->
+  forall t, client_done (hproj (snd cf t)) = true \/ (at_wait_idle (hproj (snd cf t)) = true /\ live (fst cf) > 0) \/
+            lowprio_blocked c (fst cf) (hproj (snd cf t)).
+Proof. exact hp_suspend_resume_return. Qed.
+Print Assumptions C19_hp_suspend_resume_return.
+
+(* (1) stuck and every processing unit running (every suspend followed by a resume): nothing is left in ANY queue, the
+   high-priority queues included, every submitted task executed exactly once.  0 < nhp: num_high_priority_queues_ is a divisor. *)
+Theorem C19_hp_no_task_stranded : forall c nhp progs high sched, (forall t, Forall (api_ok c) (progs t)) ->
+  let cf := hp_run c nhp progs high sched in
+  nw c > 0 -> 0 < nhp -> hp_stuck c nhp cf -> (forall w, w < nw c -> st (fst cf) w = rs_running) ->
+  qs (fst cf) = [] /\ sq (fst cf) = [] /\ heldl (fst cf) = [] /\ Permutation (map fst (executed (fst cf))) (submitted (fst cf)).
+Proof. exact hp_no_task_stranded. Qed.
+Print Assumptions C19_hp_no_task_stranded.
+
+(* (1), one running worker + stealing (C19_no_task_stranded_stealing for the layer): needs  w0 < nhp  (w0 has a high-priority
+   queue itself; always true for nhp = nw)  OR  no owner of a high-priority queue sleeps.  Refuted without it:
+   C19_hp_stranded_refuted / C19_example_hp_stranded_state_is_stuck. *)
+Theorem C19_hp_no_task_stranded_stealing : forall c nhp progs high sched w0, (forall t, Forall (api_ok c) (progs t)) ->
+  let cf := hp_run c nhp progs high sched in
+  stealing c = true -> 0 < nhp -> hp_stuck c nhp cf -> w0 < nw c -> st (fst cf) w0 = rs_running ->
+  (w0 < nhp \/ forall w, w < nhp -> w < nw c -> st (fst cf) w <> rs_sleeping) ->
+  qs (fst cf) = [] /\ heldl (fst cf) = [] /\
+  (forall i tk, In (i, tk) (sq (fst cf)) -> i = lowq c /\ lastw c w0 = false) /\
+  (qof (lowq c) (sq (fst cf)) = [] ->
+   sq (fst cf) = [] /\ Permutation (map fst (executed (fst cf))) (submitted (fst cf))).
+Proof. exact hp_no_task_stranded_stealing. Qed.
+Print Assumptions C19_hp_no_task_stranded_stealing.
+
+(* (1)+(3), exact: a task is left in a high-priority queue of a stuck state ONLY in hq j of an owner j that SLEEPS while no
+   running worker with a high-priority queue of its own could steal it (stealing off, or every such worker not running) *)
+Theorem C19_hp_stranded_only_behind_sleeping_owner : forall c nhp progs high sched, (forall t, Forall (api_ok c) (progs t)) ->
+  let cf := hp_run c nhp progs high sched in
+  nw c > 0 -> 0 < nhp -> hp_stuck c nhp cf ->
+  forall i tk, In (i, tk) (qs (fst cf)) -> nw c < i ->
+    exists j, i = hq c j /\ j < nhp /\ j < nw c /\ st (fst cf) j = rs_sleeping /\
+      (stealing c = true -> forall w0, w0 < nw c -> w0 < nhp -> st (fst cf) w0 <> rs_running).
+Proof. exact hp_stranded_only_behind_sleeping_owner. Qed.
+Print Assumptions C19_hp_stranded_only_behind_sleeping_owner.
+
+(* (3) when does a task run WITHOUT resuming anything: in a stuck state every submitted task has been executed, or is staged /
+   pending in a normal or low-priority queue (the base theorems say when), or is pending in hq j behind a sleeping owner as above.
+   So a high-priority task pushed on hq (w mod nhp) runs without a resume iff the owner (w mod nhp) is not asleep or — stealing —
+   some running worker has a high-priority queue itself; the complement is C19_hp_stranded_refuted (owner 0 asleep, nhp = 1, the
+   running worker 1 has no high-priority queue). *)
+Theorem C19_hp_task_runs_without_resume : forall c nhp progs high sched, (forall t, Forall (api_ok c) (progs t)) ->
+  let cf := hp_run c nhp progs high sched in
+  nw c > 0 -> 0 < nhp -> hp_stuck c nhp cf ->
+  forall tk, In tk (submitted (fst cf)) ->
+    In tk (map fst (executed (fst cf))) \/
+    (exists i, i <= nw c /\ (In (i, tk) (sq (fst cf)) \/ In (i, tk) (qs (fst cf)))) \/
+    (exists j, In (hq c j, tk) (qs (fst cf)) /\ j < nhp /\ j < nw c /\ st (fst cf) j = rs_sleeping /\
+       (stealing c = true -> forall w0, w0 < nw c -> w0 < nhp -> st (fst cf) w0 <> rs_running)).
+Proof. exact hp_task_runs_without_resume. Qed.
+Print Assumptions C19_hp_task_runs_without_resume.
+
+(* non-vacuity: reachable stuck states of the layer (stuck for ALL threads) *)
+Example C19_example_hp_stranded_state_is_stuck :
+  let cf := hp_run hp_cfg 1 hp_progs hp_high hp_sched in
+  hp_stuck hp_cfg 1 cf /\ st (fst cf) 1 = rs_running /\ st (fst cf) 0 = rs_sleeping /\ qs (fst cf) = [(hq hp_cfg 0, (2, 0))] /\
+  executed (fst cf) = [] /\ ~ (1 < 1 \/ forall w, w < 1 -> w < nw hp_cfg -> st (fst cf) w <> rs_sleeping).
+Proof. exact hp_stranded_state_is_stuck. Qed.
+
+Example C19_example_hp_default_state_is_stuck :
+  let cf := hp_run hp_cfg 2 hp_progs hp_high (hp_sched ++ repeat (1, o0) 4) in
+  hp_stuck hp_cfg 2 cf /\ st (fst cf) 1 = rs_running /\ st (fst cf) 0 = rs_sleeping /\ qs (fst cf) = [] /\
+  map fst (executed (fst cf)) = [(2, 0)] /\ submitted (fst cf) = [(2, 0)].
+Proof. exact hp_default_state_is_stuck. Qed.
+
+Example C19_example_hp_resumed_state_is_stuck :
+  let cf := hp_run hp_cfg 1 hp_progs_r hp_high hp_sched_r in
+  hp_stuck hp_cfg 1 cf /\ (forall w, w < nw hp_cfg -> st (fst cf) w = rs_running) /\ qs (fst cf) = [] /\
+  executed (fst cf) = [((2, 0), 0)] /\ calls (fst cf) = [(2, KResumePU, false); (2, KSuspendPU, false)].
+Proof. exact hp_resumed_state_is_stuck. Qed.
